@@ -19,6 +19,8 @@
 //!   lookup      "lookups by name and by index are mutual inverses" (+ absent names/indices are errors)
 //!   resolve     "every instrument's exchange and asset references resolve to the entries it was defined with"
 //!   order-independence  "the result does not depend on insertion order"
+//!   constructor-new/*, from-iterator/*  the same rules for the collection handed over at once
+//!               (`IndexedInstruments::new`, `FromIterator`) instead of through the incremental builder
 //!   derived/*   "Engine state, connectivity state and execution-link tables ... hold, at each index, the entry
 //!               of exactly the entity with that index"
 //!
@@ -102,6 +104,10 @@ pub type Viol = (String, String);
 
 /// Exchanges of the menu, in `ExchangeId` sort order.
 pub const EX: [ExchangeId; 3] = [ExchangeId::BinanceSpot, ExchangeId::Kraken, ExchangeId::Okx];
+
+/// Exchanges of the extended menu; position = stub id (deliberately NOT index order: `Mock` precedes
+/// `BinanceSpot` in `ExchangeId` order although it was added last and its name sorts after "kraken").
+pub const EX_ALL: [ExchangeId; 4] = [ExchangeId::BinanceSpot, ExchangeId::Kraken, ExchangeId::Okx, ExchangeId::Mock];
 
 // ---------------------------------------------------------------------------------------------------------
 // panic containment: a panic of the code under test inside `guarded` is reported as a value (and is silent);
@@ -190,6 +196,24 @@ pub fn menu() -> Vec<Def> {
             }),
             spec(OrderQuantityUnits::Quote)),
     ]
+}
+
+/// `menu()` plus two definitions that create the collisions the base menu lacks (index / derived / links layers
+/// of C11 only - other modules keep using `menu()`):
+///  * `usdt_zar.kraken`: its smallest asset `usdt` is the LARGEST asset of the BinanceSpot spot definitions, so in
+///    the sorted asset list two same-named assets of different exchanges are neighbours (a de-duplication that
+///    forgets the exchange merges them);
+///  * `eth_btc.mock` on `ExchangeId::Mock`: an exchange whose `ExchangeId` order (first) differs from its name
+///    order (after "kraken") and from the order of addition (last); it shares exchange name and asset names with
+///    `eth_btc.binance`, its neighbour in the sorted instrument list.
+pub fn menu_ext() -> Vec<Def> {
+    use InstrumentQuoteAsset::UnderlyingQuote as UQ;
+    let mut m = menu();
+    m.push(Instrument::new(ExchangeId::Kraken, "usdt_zar.kraken", "USDT/ZAR",
+        Underlying::new(a("usdt", "USDT"), a("zar", "ZAR")), UQ, InstrumentKind::Spot, None));
+    m.push(Instrument::new(ExchangeId::Mock, "eth_btc.mock", "ETHBTC",
+        Underlying::new(a("eth", "ETH"), a("btc", "BTC")), UQ, InstrumentKind::Spot, None));
+    m
 }
 
 /// The asset references of a definition, by role.
@@ -318,7 +342,7 @@ pub fn check_indexed(defs: &[&Def], ix: &IndexedInstruments, menu: &[Def]) -> Ve
     if ix.find_exchange(ExchangeIndex(ix.exchanges().len())).is_ok() {
         out.push(("C11/lookup/exchanges/absent-index-found".into(), "find_exchange(len) is Ok".into()));
     }
-    for x in EX.iter().chain([ExchangeId::Mock].iter()) {
+    for x in EX_ALL.iter().chain([ExchangeId::Simulated].iter()) {
         if !want_ex.contains(x) && ix.find_exchange_index(*x).is_ok() {
             out.push(("C11/lookup/exchanges/absent-entity-found".into(),
                 format!("find_exchange_index({x}) = {:?} but {x} was never defined", ix.find_exchange_index(*x))));
@@ -340,7 +364,7 @@ pub fn check_indexed(defs: &[&Def], ix: &IndexedInstruments, menu: &[Def]) -> Ve
     }
     let asset_names: BTreeSet<AssetNameInternal> =
         menu.iter().flat_map(|d| roles(d).into_iter().map(|(_, asset)| asset.name_internal)).collect();
-    for x in EX {
+    for x in EX_ALL {
         for n in &asset_names {
             let defined = want_as.iter().any(|w| w.exchange == x && w.asset.name_internal == *n);
             if !defined {
@@ -365,7 +389,7 @@ pub fn check_indexed(defs: &[&Def], ix: &IndexedInstruments, menu: &[Def]) -> Ve
     if ix.find_instrument(InstrumentIndex(ix.instruments().len())).is_ok() {
         out.push(("C11/lookup/instruments/absent-index-found".into(), "find_instrument(len) is Ok".into()));
     }
-    for x in EX {
+    for x in EX_ALL {
         for d in menu {
             let defined = want_in.iter().any(|w| w.exchange == x && w.name_internal == d.name_internal);
             if !defined {
@@ -652,7 +676,7 @@ pub struct Stub<const X: usize> {
 }
 
 impl<const X: usize> ExecutionClient for Stub<X> {
-    const EXCHANGE: ExchangeId = EX[X];
+    const EXCHANGE: ExchangeId = EX_ALL[X];
     type Config = StubCfg;
     type AccountStream = futures::stream::BoxStream<'static, UnindexedAccountEvent>;
 
@@ -672,7 +696,7 @@ impl<const X: usize> ExecutionClient for Stub<X> {
         });
         // echo exactly the names this client was configured with
         Ok(UnindexedAccountSnapshot {
-            exchange: EX[X],
+            exchange: EX_ALL[X],
             balances: assets.iter().map(|a| AssetBalance { asset: a.clone(), balance: Balance::default(), time_exchange: t0() }).collect(),
             instruments: instruments.iter().map(|i| InstrumentAccountSnapshot { instrument: i.clone(), orders: vec![] }).collect(),
         })
@@ -772,7 +796,7 @@ impl<const X: usize> ExecutionClient for Stub<X> {
 
 type BoxFut = Pin<Box<dyn Future<Output = ()> + Send + 'static>>;
 
-/// `clients`: menu-exchange positions (into `EX`) that get a stub client, in `add_live` order.
+/// `clients`: menu-exchange positions (into `EX_ALL`) that get a stub client, in `add_live` order.
 pub fn check_links(ix: &IndexedInstruments, clients: &[usize]) -> Vec<Viol> {
     let mut out = Vec::new();
     let cfg: StubCfg = Arc::new(Mutex::new(StubScript::default()));
@@ -783,7 +807,8 @@ pub fn check_links(ix: &IndexedInstruments, clients: &[usize]) -> Vec<Viol> {
             b = match x {
                 0 => b.add_live::<Stub<0>>(cfg.clone(), t),
                 1 => b.add_live::<Stub<1>>(cfg.clone(), t),
-                _ => b.add_live::<Stub<2>>(cfg.clone(), t),
+                2 => b.add_live::<Stub<2>>(cfg.clone(), t),
+                _ => b.add_live::<Stub<3>>(cfg.clone(), t),
             }
             .map_err(|e| format!("{e:?}"))?;
         }
@@ -808,7 +833,7 @@ pub fn check_links(ix: &IndexedInstruments, clients: &[usize]) -> Vec<Viol> {
     }
     for ke in ix.exchanges() {
         let i = ke.key.index();
-        let has_client = clients.iter().any(|&x| EX[x] == ke.value);
+        let has_client = clients.iter().any(|&x| EX_ALL[x] == ke.value);
         match entries.get(i) {
             Some((id, present)) if *id == ke.value => {
                 if *present != has_client {
@@ -845,7 +870,7 @@ pub fn check_links(ix: &IndexedInstruments, clients: &[usize]) -> Vec<Viol> {
         }).collect();
         match polled {
             Ok(Poll::Ready(Ok((m, f)))) if who.len() == 1 => {
-                managers.push((EX[*who.iter().next().unwrap()], Some(m)));
+                managers.push((EX_ALL[*who.iter().next().unwrap()], Some(m)));
                 forwards.push(f);
             }
             Ok(Poll::Ready(Ok(_))) => panic!("harness: init future touched clients {who:?}"),
@@ -875,7 +900,7 @@ pub fn check_links(ix: &IndexedInstruments, clients: &[usize]) -> Vec<Viol> {
         }
     }
     let mut want_seen = BTreeMap::new();
-    for ke in ix.exchanges().iter().filter(|ke| clients.iter().any(|&x| EX[x] == ke.value)) {
+    for ke in ix.exchanges().iter().filter(|ke| clients.iter().any(|&x| EX_ALL[x] == ke.value)) {
         want_seen.insert(ke.key.index(), (
             ix.assets().iter().filter(|k| k.value.exchange == ke.value).map(|k| k.key.index()).collect::<BTreeSet<_>>(),
             ix.instruments().iter().filter(|k| k.value.exchange.value == ke.value).map(|k| k.key.index()).collect::<BTreeSet<_>>(),
@@ -931,7 +956,7 @@ fn set_of(seq: &[usize]) -> Vec<usize> {
 
 /// All (clients subset, add order) variants for the exchanges present in `ix`.
 fn client_variants(ix: &IndexedInstruments) -> Vec<Vec<usize>> {
-    let present: Vec<usize> = (0..EX.len()).filter(|&x| ix.exchanges().iter().any(|k| k.value == EX[x])).collect();
+    let present: Vec<usize> = (0..EX_ALL.len()).filter(|&x| ix.exchanges().iter().any(|k| k.value == EX_ALL[x])).collect();
     let mut v = Vec::new();
     for k in 0..=present.len() {
         for perm in present.iter().copied().permutations(k) {
@@ -959,108 +984,203 @@ fn eval_index(menu: &[Def], seq: &[usize]) -> (Vec<Viol>, Option<IndexedInstrume
                     Err(_) => {}
                 }
             }
+            // The other entry points for "a collection of instruments": the all-at-once constructor and
+            // `FromIterator`. A result equal to the builder's has just been judged; a different one is judged by the
+            // same definition-level oracle (a different but valid indexing passes) and must itself be
+            // independent of the insertion order.
+            type Ctor = fn(Vec<Def>) -> IndexedInstruments;
+            let ctors: [(&str, Ctor); 2] = [
+                ("constructor-new", |v| IndexedInstruments::new(v)),
+                ("from-iterator", |v| v.into_iter().collect::<IndexedInstruments>()),
+            ];
+            let mut judged: Vec<IndexedInstruments> = Vec::new(); // results already judged (one defect, one family of signatures)
+            for (name, ctor) in ctors {
+                let of = |s: &[usize]| guarded(|| ctor(s.iter().map(|&i| menu[i].clone()).collect()));
+                match of(seq) {
+                    Err(p) => out.push((format!("C11/{name}/panics"), format!("{name} panicked on {seq:?}: {p}"))),
+                    Ok(n) if n == ix || judged.contains(&n) => {}
+                    Ok(n) => {
+                        for (sig, detail) in check_indexed(&defs, &n, menu) {
+                            out.push((sig.replacen("C11/", &format!("C11/{name}/"), 1), format!("[{name}] {detail}")));
+                        }
+                        if canon != seq {
+                            if let Ok(c) = of(&canon) {
+                                if c != n {
+                                    out.push((format!("C11/{name}/order-independence/differs-from-canonical-insertion"),
+                                        format!("{name}: insertion {seq:?} and insertion {canon:?} give different IndexedInstruments")));
+                                }
+                            }
+                        }
+                        judged.push(n);
+                    }
+                }
+            }
             (out, Some(ix))
         }
+    }
+}
+
+/// Index layer over one menu: every sequence of length <= `max_len` and every permutation of `perm_sizes`
+/// definitions. With `must_contain = Some(k)` only inputs that use a definition at menu position >= k are
+/// evaluated (the others were already evaluated with the base menu).
+struct IndexSweep<'a> {
+    ctx: &'a Ctx,
+    menu: &'a [Def],
+    menu_name: &'static str,
+    must_contain: Option<usize>,
+    evaluations: AtomicU64,
+    with_dups: AtomicU64,
+    perm_evals: AtomicU64,
+    distinct: &'a Distinct,
+    samples: &'a Samples,
+}
+
+impl IndexSweep<'_> {
+    fn wanted(&self, seq: &[usize]) -> bool {
+        self.must_contain.is_none_or(|k| seq.iter().any(|&i| i >= k))
+    }
+    fn one(&self, seq: &[usize], is_perm: bool, sample: bool) {
+        if !self.wanted(seq) {
+            return;
+        }
+        let (viols, ix) = eval_index(self.menu, seq);
+        if is_perm {
+            self.perm_evals.fetch_add(1, Ordering::Relaxed);
+        } else {
+            self.evaluations.fetch_add(1, Ordering::Relaxed);
+            if set_of(seq).len() != seq.len() {
+                self.with_dups.fetch_add(1, Ordering::Relaxed);
+            }
+        }
+        if let Some(ix) = &ix {
+            self.distinct.add(&(ix.exchanges(), ix.assets(), ix.instruments()));
+            if sample {
+                self.samples.offer(|| json!({"layer": "index", "menu": self.menu_name, "seq": seq, "exchanges": ix.exchanges().len(), "assets": ix.assets().len(), "instruments": ix.instruments().len()}));
+            }
+        }
+        for (sig, detail) in viols {
+            self.ctx.violate(sig, detail, json!({"layer": "index", "menu": self.menu_name, "seq": seq}));
+        }
+    }
+    fn run(&self, max_len: usize, perm_sizes: std::ops::RangeInclusive<usize>) {
+        let base = self.menu.len() as u64;
+        for len in 0..=max_len {
+            let total = base.pow(len as u32);
+            (0..total).into_par_iter().for_each(|n| {
+                self.one(&digits(n, len, base), false, len == 3 && n % 97 == 5);
+            });
+        }
+        for k in perm_sizes {
+            // streamed in chunks: the permutation list of the larger sizes does not fit comfortably in memory
+            let mut it = (0..self.menu.len()).permutations(k);
+            loop {
+                let chunk: Vec<Vec<usize>> = it.by_ref().take(1 << 16).collect();
+                if chunk.is_empty() {
+                    break;
+                }
+                chunk.into_par_iter().for_each(|seq| self.one(&seq, true, false));
+            }
+        }
+    }
+}
+
+fn menu_by_name(name: Option<&str>) -> Vec<Def> {
+    match name {
+        Some("ext") => menu_ext(),
+        _ => menu(),
     }
 }
 
 pub fn run(ctx: &Ctx) -> Outcome {
     install_quiet_hook();
     let menu = menu();
-    let base = menu.len() as u64;
+    let ext = menu_ext();
     let max_len: usize = ctx.tier.pick(4, 6);
     let max_perm: usize = ctx.tier.pick(6, menu.len());
+    // extended menu (10 definitions): only inputs that use one of the two extra definitions
+    let ext_max_len: usize = ctx.tier.pick(4, 5);
+    let ext_max_perm: usize = ctx.tier.pick(5, 6);
 
     // ---- layer index
-    let evaluations = AtomicU64::new(0);
-    let with_dups = AtomicU64::new(0);
     let distinct = Distinct::default();
     let samples = Samples::new(100_000); // candidates; sorted and cut to 6 below (deterministic under parallelism)
-    for len in 0..=max_len {
-        let total = base.pow(len as u32);
-        (0..total).into_par_iter().for_each(|n| {
-            let seq = digits(n, len, base);
-            let (viols, ix) = eval_index(&menu, &seq);
-            evaluations.fetch_add(1, Ordering::Relaxed);
-            if set_of(&seq).len() != seq.len() {
-                with_dups.fetch_add(1, Ordering::Relaxed);
-            }
-            if let Some(ix) = &ix {
-                distinct.add(&(ix.exchanges(), ix.assets(), ix.instruments()));
-                if len == 3 && n % 97 == 5 {
-                    samples.offer(|| json!({"layer": "index", "seq": seq, "exchanges": ix.exchanges().len(), "assets": ix.assets().len(), "instruments": ix.instruments().len()}));
-                }
-            }
-            for (sig, detail) in viols {
-                ctx.violate(sig, detail, json!({"layer": "index", "seq": seq}));
-            }
-        });
-    }
+    let base_sweep = IndexSweep {
+        ctx, menu: &menu, menu_name: "base", must_contain: None, evaluations: AtomicU64::new(0), with_dups: AtomicU64::new(0),
+        perm_evals: AtomicU64::new(0), distinct: &distinct, samples: &samples,
+    };
+    base_sweep.run(max_len, (max_len + 1)..=max_perm);
+    let ext_sweep = IndexSweep {
+        ctx, menu: &ext, menu_name: "ext", must_contain: Some(menu.len()), evaluations: AtomicU64::new(0), with_dups: AtomicU64::new(0),
+        perm_evals: AtomicU64::new(0), distinct: &distinct, samples: &samples,
+    };
+    ext_sweep.run(ext_max_len, (ext_max_len + 1)..=ext_max_perm);
 
-    // ---- every insertion order of every subset of the menu (no repetition), up to the full menu
-    let perm_evals = AtomicU64::new(0);
-    for k in (max_len + 1)..=max_perm {
-        let perms: Vec<Vec<usize>> = (0..menu.len()).permutations(k).collect();
-        perms.into_par_iter().for_each(|seq| {
-            let (viols, ix) = eval_index(&menu, &seq);
-            perm_evals.fetch_add(1, Ordering::Relaxed);
-            if let Some(ix) = &ix {
-                distinct.add(&(ix.exchanges(), ix.assets(), ix.instruments()));
-            }
-            for (sig, detail) in viols {
-                ctx.violate(sig, detail, json!({"layer": "index", "seq": seq}));
-            }
-        });
-    }
-
-    // ---- layers derived + links: every distinct non-empty set of definitions
+    // ---- layers derived + links: every distinct non-empty set of definitions of the extended menu (derived);
+    // links: every set of the base menu, and every set with the Mock definition and at most one definition per
+    // exchange (every exchange subset containing Mock x every choice of definitions)
     let derived_evals = AtomicU64::new(0);
     let link_runs = AtomicU64::new(0);
     let link_distinct = Distinct::default();
-    (1u32..(1 << menu.len())).into_par_iter().for_each(|mask| {
-        let set: Vec<usize> = (0..menu.len()).filter(|i| mask & (1 << i) != 0).collect();
-        let (viols, ix) = eval_index(&menu, &set);
+    (1u32..(1 << ext.len())).into_par_iter().for_each(|mask| {
+        let set: Vec<usize> = (0..ext.len()).filter(|i| mask & (1 << i) != 0).collect();
+        let is_base = set.iter().all(|&i| i < menu.len());
+        let (viols, ix) = if is_base { eval_index(&menu, &set) } else { eval_index(&ext, &set) };
+        let menu_name = if is_base { "base" } else { "ext" };
         let index_ok = viols.is_empty();
         for (sig, detail) in viols {
-            ctx.violate(sig, detail, json!({"layer": "index", "seq": set}));
+            ctx.violate(sig, detail, json!({"layer": "index", "menu": menu_name, "seq": set}));
         }
         // derived tables are judged against a correct index table only (no cascade of one defect)
         let Some(ix) = ix.filter(|_| index_ok) else { return };
         derived_evals.fetch_add(1, Ordering::Relaxed);
         for (sig, detail) in check_derived(&ix) {
-            ctx.violate(sig, detail, json!({"layer": "derived", "set": set}));
+            ctx.violate(sig, detail, json!({"layer": "derived", "menu": menu_name, "set": set}));
+        }
+        let one_per_exchange = set.iter().map(|&i| ext[i].exchange).all_unique();
+        let with_mock = set.iter().any(|&i| ext[i].exchange == ExchangeId::Mock);
+        if !(is_base || (with_mock && one_per_exchange)) {
+            return;
         }
         for clients in client_variants(&ix) {
             link_runs.fetch_add(1, Ordering::Relaxed);
             link_distinct.add(&(ix.exchanges().iter().map(|k| k.value).collect::<Vec<_>>(), clients.clone()));
             for (sig, detail) in check_links(&ix, &clients) {
-                ctx.violate(sig, detail, json!({"layer": "links", "set": set, "clients": clients}));
+                ctx.violate(sig, detail, json!({"layer": "links", "menu": menu_name, "set": set, "clients": clients}));
             }
         }
     });
 
-    let evals = evaluations.load(Ordering::Relaxed);
+    let ld = |a: &AtomicU64| a.load(Ordering::Relaxed);
+    let evals = ld(&base_sweep.evaluations) + ld(&ext_sweep.evaluations);
+    let perm_evals = ld(&base_sweep.perm_evals) + ld(&ext_sweep.perm_evals);
     Outcome {
         level: "exploration",
         coverage: json!({
-            "evaluations": evals + perm_evals.load(Ordering::Relaxed) + derived_evals.load(Ordering::Relaxed) + link_runs.load(Ordering::Relaxed),
+            "evaluations": evals + perm_evals + ld(&derived_evals) + ld(&link_runs),
             "index_sequences": evals,
-            "index_permutations_longer_than_max_sequence_length": perm_evals.load(Ordering::Relaxed),
-            "index_sequences_with_duplicates": with_dups.load(Ordering::Relaxed),
+            "index_sequences_base_menu": ld(&base_sweep.evaluations),
+            "index_sequences_using_an_extended_menu_definition": ld(&ext_sweep.evaluations),
+            "index_permutations_longer_than_max_sequence_length": perm_evals,
+            "index_permutations_base_menu": ld(&base_sweep.perm_evals),
+            "index_permutations_using_an_extended_menu_definition": ld(&ext_sweep.perm_evals),
+            "index_sequences_with_duplicates": ld(&base_sweep.with_dups) + ld(&ext_sweep.with_dups),
             "distinct_nontrivial": distinct.len(),
-            "derived_sets": derived_evals.load(Ordering::Relaxed),
-            "execution_link_runs": link_runs.load(Ordering::Relaxed),
+            "derived_sets": ld(&derived_evals),
+            "execution_link_runs": ld(&link_runs),
             "execution_link_distinct_configurations": link_distinct.len(),
             "max_sequence_length": max_len,
             "max_permutation_size": max_perm,
             "menu_size": menu.len(),
+            "extended_menu_size": ext.len(),
+            "extended_menu_max_sequence_length": ext_max_len,
+            "extended_menu_max_permutation_size": ext_max_perm,
             "exhaustive": true,
-            "rule": "every sequence (repetition allowed => duplicates, every insertion order) of length <= max_sequence_length over the 8-definition menu, plus every permutation of every larger subset up to max_permutation_size definitions, through the real IndexedInstrumentsBuilder, oracle from the definitions; every non-empty subset through EngineStateBuilder / update_from_account / account-snapshot generation; every subset x (exchanges with client, add order) through ExecutionBuilder with manager futures polled by hand on a paused runtime",
+            "rule": "every sequence (repetition allowed => duplicates, every insertion order) of length <= max_sequence_length over the 8-definition menu, plus every permutation of every larger subset up to max_permutation_size definitions, and the same (up to the extended bounds) over the 10-definition extended menu for the inputs that use one of its two extra definitions, through the real IndexedInstrumentsBuilder and also through IndexedInstruments::new and FromIterator (judged by the same oracle whenever their result differs from the builder's), oracle from the definitions; every non-empty subset of the extended menu through EngineStateBuilder / update_from_account / account-snapshot generation; every subset of the base menu and every one-definition-per-exchange subset containing the Mock exchange x (exchanges with client, add order) through ExecutionBuilder with manager futures polled by hand on a paused runtime",
             "samples": samples.take().into_iter().sorted_by_key(|v| v.to_string()).take(6).collect::<Vec<_>>(),
         }),
         assumptions: vec![
             "InstrumentNameInternal identifies an instrument (unique across exchanges) and an exchange names an asset one way (documented contracts)".into(),
-            "menu of 8 definitions over 3 exchanges (spot, perpetual, future, option; settlement-only and unit-only assets; shared asset names)".into(),
+            "menu of 8 definitions over 3 exchanges (spot, perpetual, future, option; settlement-only and unit-only assets; shared asset names); extended menu adds a definition whose smallest asset equals the largest asset of the previous exchange, and a fourth exchange (Mock) whose ExchangeId order, name order and order of addition all differ".into(),
             "execution links: stub ExecutionClient per exchange; link routing observed with one Shutdown per link".into(),
         ],
     }
@@ -1068,7 +1188,8 @@ pub fn run(ctx: &Ctx) -> Outcome {
 
 pub fn replay(ctx: &Ctx, case: &Value) {
     install_quiet_hook();
-    let menu = menu();
+    // cases recorded before the extended menu existed carry no "menu" key: base menu
+    let menu = menu_by_name(case["menu"].as_str());
     let list = |k: &str| -> Vec<usize> {
         case[k].as_array().map(|a| a.iter().filter_map(|v| v.as_u64().map(|x| x as usize)).collect()).unwrap_or_default()
     };
